@@ -272,6 +272,13 @@ pub fn reduced(shape: &Shape) -> Vec<Value> {
 		],
 		Shape::Bool => vec![Value::Bool(false), Value::Bool(true)],
 		Shape::Unit | Shape::CompactUnit | Shape::Phantom => vec![Value::Unit],
+		Shape::CompactMax(_, max) => {
+			let mut v: Vec<u128> = vec![0, 63, 64, *max];
+			v.retain(|x| x <= max);
+			v.sort();
+			v.dedup();
+			v.into_iter().map(Value::U).collect()
+		},
 		Shape::Compact(bits) => {
 			let mut v: Vec<u128> = vec![0, 64, 1 << 14, 1 << 30, mask(*bits)];
 			v.retain(|x| *x <= mask(*bits));
@@ -445,6 +452,8 @@ fn values_inner(shape: &Shape, b: &Bound, top: bool) -> Vec<Value> {
 			values_inner(&Shape::UInt(*bits), b, top).into_iter().filter(|v| *v != Value::U(0)).collect(),
 		Shape::NonZeroI(bits) =>
 			values_inner(&Shape::SInt(*bits), b, top).into_iter().filter(|v| *v != Value::I(0)).collect(),
+		Shape::CompactMax(bits, max) =>
+			values_inner(&Shape::Compact(*bits), b, top).into_iter().filter(|v| matches!(v, Value::U(x) if x <= max)).chain([Value::U(*max)]).collect::<std::collections::BTreeSet<_>>().into_iter().collect(),
 		Shape::Compact(bits) =>
 			if *bits == 8 || (*bits == 16 && b.full16 && top) {
 				(0..=mask(*bits)).map(Value::U).collect()
